@@ -12,7 +12,7 @@ def pairs : Nat → List String → Option (List (Bytes × Bytes) × List String
     | _, _, _ => none
   | _, _ => none
 
-def fmtCursor (s : St) : String := toString s.curFile ++ " " ++ toString s.curOff
+def fmtCursor (s : St) : String := toString s.fs.curFile ++ " " ++ toString s.fs.curOff
 
 def afterCrash (s : St) : S × String :=
   match reopen (crash s) with
@@ -36,7 +36,7 @@ def step (st : S) (toks : List String) : S × String :=
   | ["open", net, max, cmax, mode, row] =>
     match net.toNat?, max.toNat?, cmax.toNat?, hexBytes? row with
     | some net, some max, some cmax, some row =>
-      (some { net := net, max := max,
+      (some { fs := { net := net, max := max },
               db := { ldb := ElaVerif.Ffldb.initLdb row, maxSize := cmax, flushAlways := mode == "always" } }, "ok")
     | _, _, _, _ => (st, "bad-op")
   | _ =>
@@ -49,13 +49,13 @@ def step (st : S) (toks : List String) : S × String :=
     | some (blocks, nk :: rest') =>
       match nk.toNat?.bind (fun n => pairs n rest') with
       | some (kvs, _) =>
-        let (s', dead) := commit crc32c { s with arm := armOf point skip torn } blocks kvs
-        if dead then afterCrash s' else (some { s' with arm := none }, "ok " ++ fmtCursor s')
+        let (s', dead) := commit crc32c { s with fs := { s.fs with arm := armOf point skip torn } } blocks kvs
+        if dead then afterCrash s' else (some { s' with fs := { s'.fs with arm := none } }, "ok " ++ fmtCursor s')
       | none => (st, "bad-op")
     | _ => (st, "bad-op")
   | ["flush", point, skip] =>
-    let (s', dead) := flush { s with arm := armOf point skip "0" }
-    if dead then afterCrash s' else (some { s' with arm := none }, "ok")
+    let (s', dead) := flush { s with fs := { s.fs with arm := armOf point skip "0" } }
+    if dead then afterCrash s' else (some { s' with fs := { s'.fs with arm := none } }, "ok")
   | ["crash"] => afterCrash s
   | ["reopen"] =>
     match reopen s with
@@ -76,7 +76,7 @@ def step (st : S) (toks : List String) : S × String :=
         | none => "bad"
       (st, " ".intercalate (hp ++ kp))
     | none => (st, "bad-op")
-  | ["files"] => (st, fmtFiles s.files)
+  | ["files"] => (st, fmtFiles s.fs.files)
   | ["stats"] => (st, toString s.db.ckeys.length ++ " " ++ toString s.db.cremoves.length)
   | _ => (st, "bad-op")
 
